@@ -116,7 +116,7 @@ CLAIM = {
     "text": "Decides the delivery chain and error policy of callbacks: each stage from emit to the registry forwards the document exactly once, the "
             "registry calls every connected callable once per document over a snapshot of the insertion-ordered map, documents leave the bundler "
             "only through emit / emit_sync, a raising callback is collected when exceptions are ignored and re-raised otherwise, and a re-raised "
-            "exception becomes the response of the emitting message and fails the run when unhandled. Thread timing is not decided.",
+            "exception becomes the response of the emitting message and fails the run when unhandled; a run counts as open before its start document is emitted (a consumer raising on it still sees the stop). Thread timing is not decided.",
     "technique": "call-multiplicity and handler-shape rules along the resolved delivery chain; error-discipline rule",
 }
 
